@@ -12,6 +12,8 @@ package main
 // back into one state.
 
 import (
+	"fmt"
+	"os"
 	"go/ast"
 	"go/token"
 	"go/types"
@@ -224,4 +226,83 @@ func (x *Exec) inlineReturn(st *State) {
 		}
 	}
 	*f.rets = append(*f.rets, states...)
+}
+
+// inlineClosure executes a call of a local function literal in place. Returns
+// false (state and obligations untouched) when the outcome cannot be merged
+// into one state or the literal has more than one result.
+func (x *Exec) inlineClosure(e *ast.CallExpr, st *State, lit *ast.FuncLit, args []Value) (Value, bool) {
+	sig, _ := x.info.TypeOf(lit).(*types.Signature)
+	if sig == nil || sig.Variadic() || sig.Params().Len() != len(args) || sig.Results().Len() > 1 {
+		return nil, false
+	}
+	if len(x.inlineStack) >= inlineMaxDepth {
+		return nil, false
+	}
+	nOb, nErr := len(x.obligs), len(x.errs)
+	siteCopy := map[string]int{}
+	for k, v := range x.siteCount {
+		siteCopy[k] = v
+	}
+	work := st.clone()
+	callerDefers := work.defers
+	work.defers = nil
+	for i := 0; i < sig.Params().Len(); i++ {
+		work.vars[sig.Params().At(i)] = args[i]
+	}
+	var rets []*State
+	savedLit, savedInl := x.litReturn, x.inlineStack
+	x.litReturn = &rets
+	x.inlineStack = nil // returns inside the literal end the literal, not an enclosing inlined helper
+	outs := x.stmts(lit.Body.List, []*State{work}, nil)
+	x.litReturn, x.inlineStack = savedLit, savedInl
+	fallback := func() (Value, bool) {
+		if os.Getenv("GVC_DEBUG") != "" {
+			fmt.Fprintf(os.Stderr, "inlineClosure fallback at %s: errs=%v\n", x.src(e), x.errs[nErr:])
+		}
+		x.obligs = x.obligs[:nOb]
+		x.siteCount = siteCopy
+		if len(x.errs) > nErr {
+			x.errs = x.errs[:nErr]
+		}
+		return nil, false
+	}
+	if len(x.errs) > nErr {
+		return fallback()
+	}
+	var live []*State
+	for _, r := range append(outs, rets...) {
+		if !r.dead() {
+			if len(r.defers) > 0 {
+				return fallback()
+			}
+			live = append(live, r)
+		}
+	}
+	if len(live) == 0 {
+		st.add(False)
+		return x.freshResult(st, x.info.TypeOf(e)), true
+	}
+	merged := x.mergeMany(live)
+	if len(merged) != 1 {
+		return fallback()
+	}
+	m := merged[0]
+	var res Value = Tu{}
+	if sig.Results().Len() == 1 {
+		r, ok := m.ghosts["litresult"]
+		if !ok {
+			return fallback()
+		}
+		res = r
+	}
+	delete(m.ghosts, "litresult")
+	for v := range m.vars {
+		if v.Pos() >= lit.Pos() && v.Pos() <= lit.End() {
+			delete(m.vars, v)
+		}
+	}
+	m.defers = callerDefers
+	*st = *m
+	return res, true
 }
